@@ -32,8 +32,7 @@ def run_future_part(ctx):
     exe = fc.build(ctx)
 
     # E1 ---------------------------------------------------------------------------------------
-    fc.model(ctx, 'timed', WHAT, 'wait_for / wait_until on a NOT deferred future racing runner and getter')
-    fc.model(ctx, 'timed_d', WHAT, 'wait_for / wait_until on a deferred future (may run it inline)')
+    fc.model(ctx, 'g20', WHAT, 'wait_for / wait_until on a NOT deferred future | on a deferred future (may run it inline)')
 
     # E3 / E4 ------------------------------------------------------------------------------------
     rng = random.Random(ctx.seed * 17 + 3)
